@@ -232,6 +232,21 @@ def run(prog, R):
     else:
         R.ob("ANCHOR", "SemanticError::range", False)
     who_inserts(prog, R, "C12.3-diagnostic-goes-to-the-current-file")
+    # the node a diagnostic is recorded on belongs to the file's tree: the analyser and the include handling never
+    # build detached copies of syntax nodes (clone_subtree / clone_for_update / a new root), whose ranges start at 0
+    DET = ("::clone_subtree", "::clone_for_update", "SyntaxNode::new_root", "::detach", "GreenNode::new", "::splice_children", "::make_mut")
+    ndet, ncal = [], 0
+    for k_, b_ in prog.bodies.items():
+        if not k_.startswith(("oq3_semantics::", "oq3_source_file::")):
+            continue
+        for _, t_ in b_.calls():
+            ncal += 1
+            c_ = b_.callee_of(t_) or ""
+            if c_.endswith(DET) or any(x in c_ for x in ("AstNode::clone_subtree", "AstNode::clone_for_update")):
+                ndet.append((k_.split("::", 1)[1][:60], c_.split("::")[-1], t_.get("at", "")))
+    R.ob("C12.3-nodes-stay-attached", "no detached copy of a syntax node is made in the analyser or the include handling", ncal > 800 and not ndet, ndet[0][2] if ndet else "",
+         f"{ncal} call sites in oq3_semantics / oq3_source_file; none detaches or rebuilds a syntax node" if not ndet else
+         f"{ndet[:2]}: a detached copy has the range 0..len(node), which is not the range of a node of the file's tree (a diagnostic recorded on it points at the beginning of the file)")
     try:
         import c12_sema
         c12_sema.run(prog, R)
